@@ -29,6 +29,12 @@ def rebuild(c):
     return r
 
 
+def node_symbols(graph):
+    import re
+
+    return sorted(m[1] if m[1] is not None and m[0].startswith('"') else m[0] for m in re.findall(r'label=("([^"]*)"|[^\s\]]+)', graph.source))
+
+
 def check(p, name, c, build_src=None):
     """build_src: source that builds `c` the way the checked object was built (history included)."""
     if not c.inputs:
@@ -98,6 +104,16 @@ def check(p, name, c, build_src=None):
                     problems.append(f"into_graphviz_digraph(as_bench=True, draw_labels={dl}, autorename_labels={ar}, draw_blocks={db}) raised {type(e).__name__}: {e} (the same drawing without as_bench works)")
             if problems:
                 break
+    # what is drawn as bench is the converted circuit: same multiset of node symbols as a plain drawing of the
+    # circuit converted above (helper labels carry fresh uuids, so symbols are compared, not names)
+    if not problems:
+        try:
+            drawn = node_symbols(rebuild(orig).into_graphviz_digraph(as_bench=True, draw_blocks=False, draw_labels=False, autorename_labels=False))
+            conv = node_symbols(c.into_graphviz_digraph(as_bench=False, draw_blocks=False, draw_labels=False, autorename_labels=False))
+            if drawn != conv:
+                problems.append(f"into_graphviz_digraph(as_bench=True) draws node symbols {drawn}, the converted circuit has {conv}")
+        except Exception:  # noqa: BLE001 - drawing failures are judged above
+            pass
     if problems:
         types = "+".join(sorted({g.gate_type.name for g in orig.gates.values()} - ALLOWED))[:60]
         p.violation(
@@ -124,6 +140,10 @@ def check(p, name, c, build_src=None):
             "        try:\n            o.into_graphviz_digraph(as_bench=False, draw_blocks=db, draw_labels=dl, autorename_labels=ar); bad.append(('graphviz raised only as bench', type(e).__name__))\n"
             "        except Exception:\n            pass\n"
             "if circ.snapshot(o)!=before: bad.append('graphviz modified original')\n"
+            "from checks.c14 import node_symbols\n"
+            "try:\n    kw=dict(draw_blocks=False, draw_labels=False, autorename_labels=False)\n"
+            "    if node_symbols(o.into_graphviz_digraph(as_bench=True, **kw))!=node_symbols(c.into_graphviz_digraph(as_bench=False, **kw)): bad.append('drawn as bench differs from the converted circuit')\n"
+            "except Exception:\n    pass\n"
             "print(bad)\nsys.exit(1 if bad else 0)\n",
         )
 
